@@ -23,6 +23,8 @@ LEVEL_TEXT = ('static: writer grammar == SCgf v2 reference == reader grammar (sh
               'every _check_inputs override validates all inputs. Does not decide that the sort output is '
               'topological for every graph nor value equality through SynthDesc.')
 LEVEL_NOTE = 'reference grammar in scverif/refs (SCgf v2 spec); struct semantics of CPython trusted'
+LEVEL_TEXT_ADD = ' Also: one input = one input spec (sequence inputs refused by the generic validity check) and the or-default rule over the description reader (C02.desc).'
+LEVEL_TEXT = (globals().get('LEVEL_TEXT') or EXPLANATION) + LEVEL_TEXT_ADD
 TECHNIQUE = 'static analysis: format-grammar extraction over the AST + path enumeration (count/early-exit, validation discipline)'
 
 REF_FILE = 'raw4 i32 i16 ( DEF )*'
